@@ -8,7 +8,7 @@ if [ ! -d "$WT" ]; then git -C /repo worktree add -q --detach "$WT" HEAD || exit
 cd "$WT" && git checkout -q -- . && git clean -fdq -e target
 FA=""; [ "$FEAT" != "-" ] && FA="--features $FEAT"
 PKG=$(grep -m1 '^name' "$CR/Cargo.toml" | sed 's/.*"\(.*\)".*/\1/')
-cp "$DEMO" "$WT/$CR/tests/seed_demo.rs"
+mkdir -p "$WT/$CR/tests"; cp "$DEMO" "$WT/$CR/tests/seed_demo.rs"
 cargo test --offline -p "$PKG" $FA --test seed_demo >/tmp/c3_head.log 2>&1; h=$?
 git apply "$P" || { echo "patch does not apply"; exit 2; }
 cargo test --offline -p "$PKG" $FA --test seed_demo >/tmp/c3_patched.log 2>&1; p=$?
